@@ -146,7 +146,10 @@ ExprP == <<
   P("y_index",   <<"Y", "[", "I", "]">>),
   P("y_mod",     <<"Y", "%", "A">>),
   P("y_eq",      <<"Y", "==", "Y">>),
-  P("y_call",    <<"A", "(", "Y", ")">>)
+  P("y_call",    <<"A", "(", "Y", ")">>),
+  P("y_decode",  <<"Y", ".", "decode", "(", ")">>),
+  P("y_decode2", <<"Y", ".", "decode", "(", "'utf8'", ")">>),
+  P("s_encode",  <<"S", ".", "encode", "(", ")">>)
 >>
 
 AtomP == <<
@@ -382,6 +385,9 @@ Common(c) ==
   P("strstmt",   <<"S", ".", "upper", "(", ")", "NL">>),
   P("strstmt2",  <<"S", "%", "A", "NL">>),
   P("numstmt",   <<"N", "+", "A", "NL">>),
+  P("unpackslice", <<"x", ",", "y", "=", "A", "[", "A", ":", "]", "NL">>),
+  P("unpackslice2", <<"x", ",", "y", "=", "A", "[", "1", ":", "A", "]", "NL">>),
+  P("forliterals", <<"for", "x", "in", "N", ",", "N", ":", "NL", "INDENT", "id", "(", "x", ")", "NL", "DEDENT">>),
   P("comment",   <<"pass", "#c", "NL">>),
   P("contline",  <<"x", "=", "E", "BSNL", "+", "A", "NL">>),
   P("blankline", <<"pass", "NL", "NLJ", "#c", "NL", "pass", "NL">>)
@@ -392,6 +398,7 @@ FuncOnly == <<
   P("returnE",    <<"return", "E", "NL">>),
   P("returnstar", <<"return", "*", "A", ",", "E", "NL">>),
   P("returnx",    <<"return", "x", "NL">>),
+  P("forcomplex", <<"for", "v", "in", "1j", ",", "N", ":", "NL", "INDENT", "id", "(", "v", ")", "NL", "DEDENT">>),
   P("yield",      <<"yield", "E", "NL">>),
   P("yield0",     <<"yield", "NL">>),
   P("yieldassign", <<"v", "=", "yield", "E", "NL">>),
